@@ -109,6 +109,29 @@ static std::vector<Totals> runCase(int mask, int T, int phase) {
     return out;
 }
 
+// Independent expectation of the totals after each realization, from the harness's own knowledge of what each enabled
+// force contributes (integers).  The serial run is NOT trusted as the only reference: a defect that is the same for
+// every thread count (e.g. a cached contribution counted twice) would otherwise be invisible.
+static std::vector<Totals> expectedTotals(int mask) {
+    std::vector<Totals> out;
+    const double u0s[3] = {2, 5, 5}, u1s[3] = {3, 7, 7};
+    int first = -1; for (int k = 0; k < 5; ++k) if (mask & (1 << k)) { first = k; break; }
+    for (int r = 0; r < 3; ++r) {
+        Totals t; t.v.assign(3 * 6 + 2, 0.0);     // Ground + 2 bodies, then 2 mobilities
+        for (int k = 0; k < 5; ++k) {
+            if (!(mask & (1 << k))) continue;
+            if (r == 2 && k == first) continue;     // disabled in realization 3
+            const Kind& K = KINDS[k];
+            t.v[18 + 0] += K.kMob + (K.posOnly ? 0 : u0s[r]);
+            t.v[18 + 1] += 2 * K.kMob;
+            t.v[1 * 6 + 3 + 0] += K.kBody;                       // bf[1][1][0]
+            t.v[1 * 6 + 3 + 2] += K.posOnly ? 0 : u1s[r];        // bf[1][1][2]
+        }
+        out.push_back(t);
+    }
+    return out;
+}
+
 static std::string maskStr(int mask) { std::string s; for (int k = 0; k < 5; ++k) if (mask & (1 << k)) s += std::string(s.empty() ? "" : "+") + KINDS[k].name; return s.empty() ? "none" : s; }
 
 #ifdef VERIF_FREE
@@ -154,7 +177,14 @@ int main(int argc, char** argv) {
 
     // serial references (1 thread), computed outside the scheduler
     std::vector<std::vector<Totals>> refs(32);
-    for (int mask = 0; mask < 32; ++mask) refs[mask] = runCase(mask, 1, -2);
+    for (int mask = 0; mask < 32; ++mask) {
+        refs[mask] = runCase(mask, 1, -2);
+        auto want = expectedTotals(mask);
+        run.transition(1);
+        for (int r = 0; r < 3; ++r) if (!(refs[mask][r] == want[r]))
+            run.violation("serial-totals-differ-from-sum-of-contributions", "mix=" + maskStr(mask) + " 1 thread, realization " + std::to_string(r + 1) + ": totals " + totalsStr(refs[mask][r]) + "!= sum of the enabled forces' contributions " + totalsStr(want[r]), "section=serial\nmask=" + std::to_string(mask) + "\n");
+        refs[mask] = want;      // every schedule is compared with the independent expectation
+    }
 
     std::vector<Totals> got;
     auto explore = [&](const Scn& c, bool single) {
